@@ -256,6 +256,20 @@ Fixpoint search_fwd (fuel : nat) (h : heap) (t : option nat) : outcome (option n
 
 Inductive which := Oldest | Youngest.
 
+(* the tail of xmpp_conn_send_queue_drop_element once the element [t] to drop is found: also drop the
+   SM request linked to it, then the element itself *)
+Definition drop_found (st : state) (t : nat) : outcome (state * option (list Z)) :=
+  do tn <- load (s_heap st) t;
+  do st1 <- match n_next tn with
+            | None => Ok st
+            | Some x => do xn <- load (s_heap st) x;
+                        if opt_eqb (n_userdata xn) (Some t) then
+                          do r <- drop_element st x; Ok (set_r_sent (fst r) false)
+                        else Ok st
+            end;
+  do r <- drop_element st1 t;
+  Ok (fst r, Some (snd r)).
+
 Definition drop_regular (st : state) (w : which) : outcome (state * option (list Z)) :=
   let disconnected := negb (s_connected st) in
   let fuel := S (s_next st) in
@@ -271,17 +285,7 @@ Definition drop_regular (st : state) (w : which) : outcome (state * option (list
     do t2 <- search_fwd fuel (s_heap st) t1;
     match t2 with
     | None => Ok (st, None)
-    | Some t =>
-      do tn <- load (s_heap st) t;
-      do st1 <- match n_next tn with
-                | None => Ok st
-                | Some x => do xn <- load (s_heap st) x;
-                            if opt_eqb (n_userdata xn) (Some t) then
-                              do r <- drop_element st x; Ok (set_r_sent (fst r) false)
-                            else Ok st
-                end;
-      do r <- drop_element st1 t;
-      Ok (fst r, Some (snd r))
+    | Some t => drop_found st t
     end
   end.
 
